@@ -34,10 +34,12 @@ RULE = (
     "inside operator arguments), non-multicast operators and deterministic callbacks, and subscribed 2-3 times: each "
     "later subscription either overlaps the previous one at a generated offset (0 = same instant) or follows its "
     "termination (or its disposal at a fixed horizon of 100 ticks when it never terminates) after a generated gap. "
-    "Check `generic`: random well-kinded pipelines (1..4 quick / 1..6 thorough operators from the shared table minus the "
+    "Checks `generic` and `op.<name>`: random well-kinded pipelines (1..4 quick / 1..6 thorough operators; the `op.<name>` "
+    "checks give each of the 114 admitted operator forms the same budget by forcing it into the pipeline between 0-1 "
+    "(thorough 0-2) random prefix and suffix operators; operators from the shared table minus the "
     "tags multicast/abstime/scripted and minus window_when/buffer_when, whose harness callback is a counter; roots = one "
     "source or merge/concat/zip/combine_latest/amb/catch/on_error_resume_next/fork_join/with_latest_from/"
-    "concat_with_iterable/catch_with_iterable/defer). Check `scripted`: one of 31 creation forms (while_do, do_while, "
+    "concat_with_iterable/catch_with_iterable/defer). Checks `scripted` and `form.<name>`: one of 31 creation forms (while_do, do_while, "
     "if_then, case, defer, generate, generate_with_relative_time, for_in, from_callback, from_callable, repeat_value, "
     "catch, catch_with_iterable, on_error_resume_next incl. callable sources, concat, concat_with_iterable, zip, merge, "
     "combine_latest, fork_join, amb, with_latest_from, window_when, buffer_when, using, range, of, from_iterable, timer, "
@@ -93,13 +95,14 @@ STATEFUL_ROOTS = {"concat", "zip", "combine_latest", "amb", "catch", "on_error_r
 # the two worlds
 
 
-def _world(build, plan, inner_pol):
+def _world(build, plan, inner_pol, t0=0, clock="test"):
     """Build one observable in a fresh lab and subscribe it according to plan.
 
-    plan[0] is the first subscription (tick 0); plan[k] = {"mode": "ov", "d": n} subscribes n ticks after
-    subscription k-1 was made; {"mode": "seq", "d": n} subscribes n ticks after subscription k-1 terminated (or was
-    disposed at its horizon).  Returns (lab, probes, number of build-time sources)."""
-    lab = Lab()
+    plan[0] is the first subscription (at tick t0); plan[k] = {"mode": "ov", "d": n} subscribes n ticks after
+    subscription k-1 was made; {"mode": "seq", "d": n} subscribes n ticks after subscription k-1 terminated or was
+    disposed.  Every entry may carry "cut": c - the subscription is disposed c ticks after it was made (default: the
+    horizon H).  Returns (lab, probes, number of build-time sources)."""
+    lab = Lab(clock)
     guard_spin(lab)
     obs, reset = build(lab)
     nb = len(lab.sources)
@@ -129,74 +132,101 @@ def _world(build, plan, inner_pol):
             p.on_term = after
             if k + 1 < len(plan) and plan[k + 1]["mode"] == "ov":
                 lab.at(t + plan[k + 1]["d"], subscriber(k + 1))
-            lab.at(t + H, horizon)
+            cut = plan[k].get("cut")
+            lab.at(t + (H if cut is None else cut), horizon)
             p.subscribe(obs)
 
         return go
 
-    lab.at(0, subscriber(0))
+    lab.at(t0, subscriber(0))
     lab.run()
     return lab, probes, nb
 
 
-def _judge(case, build, plan, inner_pol, culprits, stateful, cls):
-    A, pa, nb = _world(build, plan[:1], inner_pol)
-    if A.inconclusive:
-        return SKIP(A.inconclusive)
-    if A.escaped is not None:
-        return SKIP("escaped-in-solo")
-    if len(pa) != 1:
-        raise HarnessError("solo world did not subscribe")
-    W, pw, nbw = _world(build, plan, inner_pol)
+def _judge(case, build, plan, inner_pol, culprits, stateful, cls, absolute=False, clock="test"):
+    """Relative mode: reference for a subscription = solo run (fresh lab, fresh build, same cut) subscribed at tick 0,
+    compared after shifting by the subscribe tick.  Absolute mode (absolute-time arguments / clock-valued elements):
+    reference = solo run subscribed at the *same absolute tick*, compared unshifted."""
+    W, pw, nb = _world(build, plan, inner_pol, 0, clock)
     if W.inconclusive:
         return SKIP(W.inconclusive)
     sigtail = ",".join(culprits[:4])
+    refs = {}
+
+    def ref_for(k):
+        key = (pw[k].sub_tick if absolute else 0, plan[k].get("cut"))
+        if key not in refs:
+            refs[key] = _world(build, [{"mode": "first", "cut": key[1]}], inner_pol, key[0], clock)
+        return refs[key]
+
+    n_sub = len(pw) if W.escaped is not None else len(plan)
+    if len(pw) < n_sub:
+        raise HarnessError(f"world made {len(pw)} of {len(plan)} subscriptions")
+    for k in range(n_sub):
+        A, pa, nba = ref_for(k)
+        if A.inconclusive:
+            return SKIP(A.inconclusive)
+        if A.escaped is not None:
+            return SKIP("escaped-in-solo")
+        if len(pa) != 1 or nba != nb:
+            raise HarnessError("solo world did not subscribe / built differently")
     if W.escaped is not None:
         return FAIL("escaped-on-resubscribe|" + sigtail, f"{type(W.escaped).__name__}: {W.escaped} escaped the scheduler only when the observable is subscribed again; case={json.dumps(case)}", classes=cls)
-    if len(pw) != len(plan) or nbw != nb:
-        raise HarnessError(f"world made {len(pw)} of {len(plan)} subscriptions (build sources {nbw} vs {nb})")
-    ref = norm_tree(pa[0], pa[0].sub_tick)
-    trees = [norm_tree(p, p.sub_tick) for p in pw]
     ticks = [p.sub_tick for p in pw]
+    base = [0 if absolute else t for t in ticks]  # what to subtract from this world's ticks
+    trees = [norm_tree(p, b) for p, b in zip(pw, base)]
+    rtrees = []
+    for k in range(len(plan)):
+        A, pa, _ = ref_for(k)
+        rtrees.append(norm_tree(pa[0], 0 if absolute else pa[0].sub_tick))
     cls = list(cls)
     cls.append(f"subs:{len(plan)}")
     for k in range(1, len(plan)):
         m = plan[k]["mode"]
         cls.append("overlap-same-instant" if (m == "ov" and plan[k]["d"] == 0) else ("overlap" if m == "ov" else ("seq-gap0" if plan[k]["d"] == 0 else "seq")))
-    cls.append("first-terminated" if pa[0].terminal() is not None else "first-cut-at-horizon")
-    if pa[0].inners:
+        if m == "ov" and any(e[1] == "N" and e[0] <= ticks[k] for e in pw[k - 1].events) and not any(e[1] in ("E", "C") and e[0] < ticks[k] for e in pw[k - 1].events):
+            cls.append("overlap-after-first-element")
+    for k in range(len(plan)):
+        if plan[k].get("cut") is not None:
+            cls.append("cut")
+            if pw[k].terminal() is None:
+                cls.append("cut-before-terminal")
+                if k + 1 < len(plan):
+                    cls.append("resubscribed-after-early-dispose")
+    cls.append("first-terminated" if pw[0].terminal() is not None else "first-not-terminated")
+    if pw[0].inners:
         cls.append("inner-probes")
-    has_next = tree_has_next(ref)
+    has_next = tree_has_next(rtrees[0]) or tree_has_next(trees[0])
     if has_next:
         cls.append("has-next")
     nontrivial = has_next and stateful
-    for k in range(1, len(trees)):
-        if trees[k] != trees[0]:
+    for k in list(range(1, len(plan))) + [0]:
+        if trees[k] != rtrees[k]:
+            what = "the first of %d subscriptions" % len(plan) if k == 0 else f"subscription #{k} (at tick {ticks[k]}, {plan[k]})"
+            same = "at the same tick " if absolute else ""
             return FAIL(
-                "trace|" + sigtail,
-                f"subscription #{k} (at tick {ticks[k]}, {plan[k]}) differs from the first: {first_diff(trees[0], trees[k])}; first={json.dumps(trees[0]['t'])} this={json.dumps(trees[k]['t'])}; case={json.dumps(case)}",
+                ("first-vs-solo|" if k == 0 else "trace|") + sigtail,
+                f"{what} differs from a single subscription {same}to a fresh build: {first_diff(rtrees[k], trees[k])}; solo={json.dumps(rtrees[k]['t'])} this={json.dumps(trees[k]['t'])}; first={json.dumps(trees[0]['t'])}; case={json.dumps(case)}",
                 classes=cls,
             )
-    if trees[0] != ref:
-        return FAIL(
-            "first-vs-solo|" + sigtail,
-            f"the first of {len(plan)} subscriptions differs from a single subscription to a fresh build: {first_diff(ref, trees[0])}; solo={json.dumps(ref['t'])} first={json.dumps(trees[0]['t'])}; case={json.dumps(case)}",
-            classes=cls,
-        )
-    # source subscription logs: union over subscriptions of the solo log shifted to the subscribe tick
+    # source subscription logs: union over subscriptions of the solo log moved to the subscribe tick
+    def moved(k, subs):
+        A, pa, _ = ref_for(k)
+        return shift_intervals(subs, 0 if absolute else ticks[k] - pa[0].sub_tick)
+
     for j in range(nb):
-        exp = sort_intervals([iv for t in ticks for iv in shift_intervals(A.sources[j].subs, t - pa[0].sub_tick)])
+        exp = sort_intervals([iv for k in range(len(plan)) for iv in moved(k, ref_for(k)[0].sources[j].subs)])
         got = sort_intervals(W.sources[j].subs)
         if exp != got:
             return FAIL(
                 "source-subs|" + sigtail,
-                f"source #{j} {src_key(W.sources[j])}: subscription intervals {got}, expected {exp} (solo {A.sources[j].subs} per subscription at ticks {ticks}); case={json.dumps(case)}",
+                f"source #{j} {src_key(W.sources[j])}: subscription intervals {got}, expected {exp} (union of the solo runs' intervals for subscriptions at ticks {ticks}); case={json.dumps(case)}",
                 classes=cls,
             )
     exp_rt = []
-    for t in ticks:
-        for s in A.sources[nb:]:
-            exp_rt.append(json.dumps([src_key(s), sort_intervals(shift_intervals(s.subs, t - pa[0].sub_tick))]))
+    for k in range(len(plan)):
+        for s in ref_for(k)[0].sources[nb:]:
+            exp_rt.append(json.dumps([src_key(s), sort_intervals(moved(k, s.subs))]))
     exp_rt.sort()
     got_rt = runtime_multiset(W.sources[nb:])
     if exp_rt != got_rt:
@@ -244,9 +274,42 @@ def _run_generic(case):
 _sub = st.fixed_dictionaries({"mode": st.sampled_from(["ov", "ov", "seq"]), "d": st.integers(0, 6)})
 
 
+_SRC_KINDS = ("cold", "cold", "sync")
+
+
 def _generic_cases(max_ops):
-    pipe = pipelines(max_ops=max_ops, min_ops=1, src_kinds=("cold", "cold", "sync"), conforming=True, exclude_tags=EXCL_TAGS, exclude_ops=EXCL_OPS).map(coldify)
+    pipe = pipelines(max_ops=max_ops, min_ops=1, src_kinds=_SRC_KINDS, conforming=True, exclude_tags=EXCL_TAGS, exclude_ops=EXCL_OPS).map(coldify)
     return st.fixed_dictionaries({"pipe": pipe, "subs": st.lists(_sub, min_size=1, max_size=2), "inner": st.sampled_from(["now", "now", "late"])})
+
+
+GEN_OPS = sorted(n for n, o in OPS.items() if not (o.tags & set(EXCL_TAGS)) and n not in EXCL_OPS)
+
+
+def _focus_cases(name, extra):
+    """Pipelines that are guaranteed to contain operator `name`: random root + 0..extra prefix operators, a kind
+    adapter if needed, the focus operator with generated arguments, 0..extra suffix operators.  (A single random
+    pipeline strategy was measured to give some operators 1 and others 128 occurrences in 750 cases.)"""
+    o = OPS[name]
+    pre = pipelines(max_ops=extra, src_kinds=_SRC_KINDS, conforming=True, exclude_tags=EXCL_TAGS, exclude_ops=EXCL_OPS)
+    suf = pipelines(max_ops=extra, roots=["single"], src_kinds=_SRC_KINDS, exclude_tags=EXCL_TAGS, exclude_ops=EXCL_OPS, max_len=1)
+
+    @st.composite
+    def _c(draw):
+        pc = draw(pre)
+        chain = list(pc["ops"])
+        kind = "any"
+        for n, _ in chain:
+            kind = kind if OPS[n].out == "same" else OPS[n].out
+        if o.inp == "obs" and kind != "obs":
+            chain.append(["map_to_obs", draw(OPS["map_to_obs"].args)])
+        elif o.inp == "notif" and kind != "notif":
+            chain.append(["materialize", {}])
+        chain.append([name, draw(o.args)])
+        chain += draw(suf)["ops"]
+        case = {"pipe": {"root": pc["root"], "ops": chain}, "subs": draw(st.lists(_sub, min_size=1, max_size=2)), "inner": draw(st.sampled_from(["now", "now", "late"]))}
+        return coldify(case)
+
+    return _c()
 
 
 # ---------------------------------------------------------------------------------------
@@ -388,10 +451,10 @@ def _build_form(lab, B, sc, form, a):
         return reactivex.from_iterable([val(v) for v in a["vs"]])
     if form == "timer":
         if a["p"] is None:
-            return reactivex.timer(lab.rel(a["d"]))
-        return reactivex.timer(lab.rel(a["d"]), lab.rel(a["p"])).pipe(ops.take(a["take"]))
+            return reactivex.timer(lab.rel(a["d"]), scheduler=lab.sched)
+        return reactivex.timer(lab.rel(a["d"]), lab.rel(a["p"]), scheduler=lab.sched).pipe(ops.take(a["take"]))
     if form == "interval":
-        return reactivex.interval(lab.rel(a["p"])).pipe(ops.take(a["take"]))
+        return reactivex.interval(lab.rel(a["p"]), scheduler=lab.sched).pipe(ops.take(a["take"]))
     if form == "retry_budget":
         # retry(n) under repeat(m): the retry allowance must be fresh for every (re)subscription
         return S(a["src"]).pipe(ops.retry(a["n"]), ops.repeat(a["outer"]))
@@ -421,12 +484,12 @@ def _run_scripted(case):
     return _judge(case, build, plan, inner_pol, culprits, True, cls)
 
 
-def _scripted_cases(max_ops):
+def _scripted_cases(max_ops, only=None):
     tail = pipelines(max_ops=max_ops, roots=["single"], src_kinds=_cold, exclude_tags=EXCL_TAGS, exclude_ops=EXCL_OPS, max_len=2).map(lambda pc: coldify(pc["ops"]))
 
     @st.composite
     def _c(draw):
-        form = draw(st.sampled_from(sorted(FORMS)))
+        form = only if only is not None else draw(st.sampled_from(sorted(FORMS)))
         args = draw(FORMS[form])
         resub = draw(st.one_of(st.none(), st.none(), st.tuples(st.sampled_from(["repeat", "retry"]), st.integers(0, 3)).map(list)))
         return {"form": form, "args": args, "resub": resub, "ops": draw(tail), "gaps": draw(st.lists(st.integers(0, 5), min_size=1, max_size=2))}
@@ -436,7 +499,14 @@ def _scripted_cases(max_ops):
 
 def checks(tier):
     q = tier == "quick"
-    return [
-        Check("generic", _run_generic, strategy=_generic_cases(4 if q else 6), examples={"quick": 6000, "thorough": 16 * 20000}, shards={"quick": 8, "thorough": 16}),
-        Check("scripted", _run_scripted, strategy=_scripted_cases(2 if q else 3), examples={"quick": 3200, "thorough": 16 * 10000}, shards={"quick": 8, "thorough": 16}),
+    sh = {"quick": 8, "thorough": 16}
+    out = [
+        Check("generic", _run_generic, strategy=_generic_cases(4 if q else 6), examples={"quick": 2400, "thorough": 16 * 8000}, shards=sh),
+        Check("scripted", _run_scripted, strategy=_scripted_cases(2 if q else 3), examples={"quick": 800, "thorough": 16 * 3000}, shards=sh),
     ]
+    # equal budget for every operator form / creation form
+    for name in GEN_OPS:
+        out.append(Check("op." + name, _run_generic, strategy=_focus_cases(name, 1 if q else 2), examples={"quick": 48, "thorough": 1600}, shards=sh))
+    for form in sorted(FORMS):
+        out.append(Check("form." + form, _run_scripted, strategy=_scripted_cases(1 if q else 2, only=form), examples={"quick": 80, "thorough": 3200}, shards=sh))
+    return out
